@@ -172,7 +172,8 @@ class Cookie:
         return "; ".join(parts)
 
     def __bytes__(self) -> bytes:
-        return str(self).encode("ascii")
+        # header values are latin-1 on the wire, like every other header
+        return str(self).encode("latin-1")
 
     def __eq__(self, other: object) -> bool:
         if isinstance(other, str):
